@@ -73,7 +73,7 @@ def num(x):
 def tr_params(tr, spell='12'):
     """Entries of a TR card / inline transformation for an integer motion."""
     o, m = tr['o'], tr['m']
-    if spell == '3' and list(m) == IDM:
+    if spell in ('3', 'star3') and list(m) == IDM:
         return [num(v) for v in o]
     return [num(v) for v in o] + [num(v) for v in m]
 
@@ -194,7 +194,7 @@ def _tr_inline(tr, spell, deck):
         return '(' + ' '.join(tr_params_star(tr)) + ' -1)'
     if spell == '13m':
         return '(' + ' '.join(tr_params(tr)) + ' -1)'
-    if spell == '3':
+    if spell in ('3', 'star3'):     # star3: *TRCL=(dx dy dz) / *FILL=n (dx dy dz): the star is a no-op without angles
         return '(' + ' '.join(tr_params(tr, '3')) + ')'
     if spell == '13':
         return '(' + ' '.join(tr_params(tr)) + ' 1)'
@@ -243,6 +243,8 @@ def _concretise(deck, title):
         sp = t.get('spell', '12')
         if sp == 'star':
             lines.append(wrap_card('*tr%d %s' % (t['n'], ' '.join(tr_params_star(t)))))
+        elif sp == 'star3':
+            lines.append(wrap_card('*tr%d %s' % (t['n'], ' '.join(tr_params(t, '3')))))
         elif sp == '13':
             lines.append(wrap_card('tr%d %s 1' % (t['n'], ' '.join(tr_params(t)))))
         elif sp == '13m':
@@ -339,13 +341,15 @@ DENSITY_CLASSES = {
     # numerically different values that agree to six significant digits: never one composition
     'H': ['-0.9982071', '-0.99820710'], 'H2': ['-0.9982074'],
     'I': ['6.022141-2', '6.022141e-2'], 'I2': ['6.022142-2', '6.022142E-2'],
+    # two digits before the decimal point
+    'J': ['-11.34', '-11.340', '-11.3400'], 'K': ['-19.3', '-19.30', '-19.300'],
 }
 
 
 def decorate_materials(deck, rng, classes_for=None, spellings='all'):
     """Give every non-filled cell a material (0, 1, 2) and a density spelling."""
-    classes_for = classes_for or {1: [rng.choice(['A', 'A2']), 'B', 'G', 'H', 'H2'],
-                                  2: ['C', 'E', 'F', 'B', 'I', 'I2']}     # B: shared by both materials
+    classes_for = classes_for or {1: [rng.choice(['A', 'A2']), 'B', 'G', 'H', 'H2', 'J'],
+                                  2: ['C', 'E', 'F', 'B', 'I', 'I2', 'K']}     # B: shared by both materials
     values = []
     for c in deck['cells']:
         if c['fill'] or (c['lat'] and c['lunivs']):
@@ -516,14 +520,14 @@ def moved_world(deck, phi):
             if c.get('trclnum'):
                 c['trclnum'] = card_for(('c', c['n']), _tr_to_affine(c['trcl']))
             elif c['trclspell'] != 'num':
-                c['trclspell'] = c['trclspell'] if (c['trclspell'] == 'star' or (ident and c['trclspell'] == '3')) else '12'
+                c['trclspell'] = c['trclspell'] if (c['trclspell'] == 'star' or (ident and c['trclspell'] in ('3', 'star3'))) else '12'
             if ident:
                 c['trcl']['m'] = list(IDM)
         if c['hasftr']:
             ident = list(c['ftr']['m']) == IDM
             c['ftr'] = conj(c['ftr'])
             if c['ftrspell'] != 'num':
-                c['ftrspell'] = c['ftrspell'] if (c['ftrspell'] == 'star' or (ident and c['ftrspell'] == '3')) else '12'
+                c['ftrspell'] = c['ftrspell'] if (c['ftrspell'] == 'star' or (ident and c['ftrspell'] in ('3', 'star3'))) else '12'
             if ident:
                 c['ftr']['m'] = list(IDM)
     d['trs'] = cards
@@ -562,9 +566,9 @@ def translations_only(deck):
             c['lvecs'] = [[sum(m[3 * i + k] * v[k] for k in range(3)) for i in range(3)] for v in c['lvecs']]
         for key in ('trcl', 'ftr'):
             c[key] = {'o': list(c[key]['o']), 'm': list(IDM)}
-        if c['trclspell'] not in ('num', '3'):
+        if c['trclspell'] not in ('num', '3', 'star3'):
             c['trclspell'] = '12'
-        if c['ftrspell'] not in ('num', '3'):
+        if c['ftrspell'] not in ('num', '3', 'star3'):
             c['ftrspell'] = '12'
     return d
 
